@@ -10,10 +10,13 @@ use markdown_it::plugins::cmark;
 #[derive(Clone, Debug)]
 pub enum Op { Add(usize), Remove(usize), Parse(String) }
 
-pub const NRULES: usize = 17;
+pub const NRULES: usize = 29;
 pub const RULE_NAMES: [&str; NRULES] = ["block@", "inline-x", "inline-(", "inline-é", "inline-+", "core-stamp", "shipped-escape", "shipped-hr",
     // plugin-level: the documented `add` functions of the generics and of the shipped plugins
-    "code_pair<%,tokenize>", "code_pair<$,verbatim>", "strikethrough", "emph_pair<~,1>", "emph_pair<^,1>", "html", "emph_pair<*,3>", "code_pair<~,verbatim>", "shipped-backticks"];
+    "code_pair<%,tokenize>", "code_pair<$,verbatim>", "strikethrough", "emph_pair<~,1>", "emph_pair<^,1>", "html", "emph_pair<*,3>", "code_pair<~,verbatim>", "shipped-backticks",
+    // every other shipped CommonMark rule, removed and re-added through its own `add`
+    "cmark-code", "cmark-fence", "cmark-blockquote", "cmark-list", "cmark-reference", "cmark-heading", "cmark-lheading", "cmark-paragraph",
+    "cmark-newline", "cmark-emphasis", "cmark-autolink", "cmark-entity"];
 use crate::cfg::Gen;
 use markdown_it::generics::inline::{code_pair, emph_pair};
 use markdown_it::Node;
@@ -37,7 +40,19 @@ pub fn apply(md: &mut MarkdownIt, op: &Op) -> Option<String> {
             13 => markdown_it::plugins::html::add(md),
             14 => emph_pair::add_with::<'*', 3, true>(md, || Node::new(Gen("em3"))),
             15 => code_pair::add_with::<'~', false>(md, |_| Node::new(Gen("tilde"))),
-            _ => cmark::inline::backticks::add(md),
+            16 => cmark::inline::backticks::add(md),
+            17 => cmark::block::code::add(md),
+            18 => cmark::block::fence::add(md),
+            19 => cmark::block::blockquote::add(md),
+            20 => cmark::block::list::add(md),
+            21 => cmark::block::reference::add(md),
+            22 => cmark::block::heading::add(md),
+            23 => cmark::block::lheading::add(md),
+            24 => cmark::block::paragraph::add(md),
+            25 => cmark::inline::newline::add(md),
+            26 => cmark::inline::emphasis::add(md),
+            27 => cmark::inline::autolink::add(md),
+            _ => cmark::inline::entity::add(md),
         } None }
         Op::Remove(k) => { match k {
             0 => md.block.remove_rule::<AtRuleB>(),
@@ -54,7 +69,19 @@ pub fn apply(md: &mut MarkdownIt, op: &Op) -> Option<String> {
             12 => md.inline.remove_rule::<emph_pair::EmphPairScanner<'^', true>>(),
             13 => { md.inline.remove_rule::<markdown_it::plugins::html::html_inline::HtmlInlineScanner>(); md.block.remove_rule::<markdown_it::plugins::html::html_block::HtmlBlockScanner>() }
             14 | 16 => md.inline.remove_rule::<code_pair::CodePairScanner<'`', false>>(),
-            _ => md.inline.remove_rule::<code_pair::CodePairScanner<'~', false>>(),
+            15 => md.inline.remove_rule::<code_pair::CodePairScanner<'~', false>>(),
+            17 => md.block.remove_rule::<cmark::block::code::CodeScanner>(),
+            18 => md.block.remove_rule::<cmark::block::fence::FenceScanner>(),
+            19 => md.block.remove_rule::<cmark::block::blockquote::BlockquoteScanner>(),
+            20 => md.block.remove_rule::<cmark::block::list::ListScanner>(),
+            21 => md.block.remove_rule::<cmark::block::reference::ReferenceScanner>(),
+            22 => md.block.remove_rule::<cmark::block::heading::HeadingScanner>(),
+            23 => md.block.remove_rule::<cmark::block::lheading::LHeadingScanner>(),
+            24 => md.block.remove_rule::<cmark::block::paragraph::ParagraphScanner>(),
+            25 => md.inline.remove_rule::<cmark::inline::newline::NewlineScanner>(),
+            26 => { md.inline.remove_rule::<emph_pair::EmphPairScanner<'*', true>>(); md.inline.remove_rule::<emph_pair::EmphPairScanner<'_', false>>() }
+            27 => md.inline.remove_rule::<cmark::inline::autolink::AutolinkScanner>(),
+            _ => md.inline.remove_rule::<cmark::inline::entity::EntityScanner>(),
         } None }
         Op::Parse(d) => { let t = md.parse(d); Some(format!("{} || {}", t.render(), dump(&t, false))) }
     }
@@ -68,6 +95,7 @@ pub fn fresh() -> MarkdownIt {
 
 pub fn probe_doc(rng: &mut Rng) -> String {
     let parts = ["xx", "((", "éé", "++", "@@@", "\\*", "***", "a xx b", "x", "é(", "word", "- - -", "*e*", "`c`", "a+b", "x\\x",
+        "l1\nl2\nl3", "p\n# h", "p\n===", "    code", "p\n    lazy\nq", "> q\nlazy", "- i\n- j", "[r]: /u\n\n[r]", "```\nf\n```", "a\n\n\nb\nc\n# h2\n", "1. o\n   p", "&amp; <http://a.b>", "t  \nbr",
         "%p%", "%% q %%", "$m$", "~~s~~", "H~2~O", "~t~", "x^2^", "<b>h</b>", "<div>\nd\n</div>", "***3***", "`` c2 ``", "%*e*%", "~~a ~b~ c~~"];
     let n = rng.range(1, 6);
     let mut s = String::new();
@@ -81,7 +109,7 @@ pub fn gen_history(rng: &mut Rng) -> Vec<Op> {
     for _ in 0..n {
         v.push(match rng.below(5) { 0 | 1 => Op::Add(rng.below(NRULES)), 2 => Op::Remove(rng.below(NRULES)), _ => Op::Parse(probe_doc(rng)) });
     }
-    v.push(Op::Parse(probe_doc(rng) + "\n\nxx (( éé ++ \\* %p% $m$ ~~s~~ H~2~O x^2^ <b>h</b> ***3*** `c`\n\n@@@\n\n***\n\n<div>\nd\n</div>"));
+    v.push(Op::Parse(probe_doc(rng) + "\n\nxx (( éé ++ \\* %p% $m$ ~~s~~ H~2~O x^2^ <b>h</b> ***3*** `c`\n\n@@@\n\n***\n\n<div>\nd\n</div>\n\nx\n# h\n\n    four\nlazy\n===\n\n> q\n- i\n\n[r]: /u\n\n[r] &amp; <http://a.b>  \nbr"));
     v
 }
 
